@@ -74,20 +74,25 @@ def roll_program(rng, depth, base, nrows, drop, repeat_ru, rich=False, gap=None,
     return lines
 
 
-def paint_program(rng, nrows, drop, adjacent, rich=False):
+def paint_program(rng, nrows, drop, adjacent, rich=False, rdc_each=False, same_row=None, gap=None, start=None):
+    """rdc_each: every row is introduced by its own Resume-Direct-Captioning (each is then a caption of
+    its own); same_row: all rows are addressed to that one row and column (a live display that keeps
+    painting its single row); gap: frames between lines"""
     lines = []
-    f = rng.randrange(30, 3000)
+    f = rng.randrange(30, 3000) if start is None else start
     rows = list(range(15 - nrows + 1, 16)) if adjacent else sorted(rng.sample(range(1, 16), nrows))
+    if same_row:
+        rows = [same_row] * nrows
     for k, r in enumerate(rows):
         syms = []
-        if k == 0:
+        if k == 0 or rdc_each:
             syms.append({"k": "RDC"})
-        body = _row_text(rng, rich)
+        body = _row_text(rng, rich, width=rng.randrange(2, 9) if same_row else None)
         wide = sum(2 if (s["k"] == "CH" and s["b"]) else 1 for s in body) > 20
-        syms.append({"k": "PAC", "r": r, "c": 0 if wide else rng.choice([0, 4]), "i": False})
+        syms.append({"k": "PAC", "r": r, "c": 0 if (wide or same_row) else rng.choice([0, 4]), "i": False})
         syms += body
         lines.append({"tc": _tc(f), "drop": drop, "syms": syms})
-        f += len(syms) * 2 + rng.randrange(10, 200)
+        f += len(syms) * 2 + (gap if gap is not None else rng.randrange(10, 200))
     return lines
 
 
@@ -113,6 +118,32 @@ def inputs(ctx):
                 for drop in (False, True):
                     ins.append({"id": "t%d" % n, "lines": paint_program(rng, nrows, drop, adjacent), "doubled": doubled})
                     n += 1
+    # paint-on where every row has its own Resume-Direct-Captioning: rows far apart, adjacent, or the
+    # same row and column painted again and again, lines closely spaced or seconds apart
+    for nrows in (2, 3):
+        for doubled in (False, True):
+            for gap in (2, 12, 90):
+                for shape in ("same", "adjacent", "apart"):
+                    ins.append({"id": "q%d" % n, "doubled": doubled,
+                                "lines": paint_program(rng, nrows, n % 2 == 0, shape == "adjacent", rdc_each=True,
+                                                       same_row=rng.choice([1, 8, 15]) if shape == "same" else None, gap=gap)})
+                    n += 1
+    # a programme that starts with the very first frame: the first mode command is the first word of a
+    # line labelled 00:00:00:00 (the first caption then starts at 0)
+    for drop in (False, True):
+        for doubled in (False, True):
+            for depth in (2, 3):
+                lines = roll_program(rng, depth, 15, 3, drop, False, final_cr=True)
+                f = 0
+                for ln in lines:
+                    ln["tc"] = _tc(f)
+                    f += len(ln["syms"]) * 2 + 40
+                ins.append({"id": "z%d" % n, "lines": lines, "doubled": doubled})
+                n += 1
+            ins.append({"id": "z%d" % n, "lines": paint_program(rng, 3, drop, True, start=0, gap=40), "doubled": doubled})
+            n += 1
+            ins.append({"id": "z%d" % n, "lines": paint_program(rng, 2, drop, False, rdc_each=True, start=0, gap=40), "doubled": doubled})
+            n += 1
     # every pattern of mode switches up to four parts (P = paint-on block, R = roll-up block), each
     # part left with text pending when the next mode command arrives
     import itertools
